@@ -8,9 +8,10 @@ A grid is described by a JSON-able *spec* (a dict) and built by :func:`build`:
      "pert": [[node, [ox, oy(, oz)]], ...], node offsets in units of 0.1*h per axis
                                             (h = 1/n in that axis); lattice {0,+-1}^d
      "map": name in AFFINE,                 affine image x -> A x + b of all nodes
-     "embed": name in EMBED}                rigid motion of a 1-d / 2-d grid into 3-d
+     "embed": name in EMBED,                rigid motion of a 1-d / 2-d grid into 3-d
+     "scale": s}                            uniform scaling x -> s x of all nodes
 
-The order of application is: perturb, affine map, embed, ``compute_geometry``.
+The order of application is: perturb, affine map, embed, scale, ``compute_geometry``.
 
 Planarity: node perturbations of hexahedra make faces non-planar (linear exactness is
 not a property of the methods there), so :func:`spec_ok` rejects ``pert`` on 3-d
@@ -74,6 +75,8 @@ def name(spec) -> str:
         s += "@" + spec["map"]
     if spec.get("embed", "none") != "none":
         s += ">" + spec["embed"]
+    if spec.get("scale", 1) != 1:
+        s += f"x{spec['scale']:g}"
     return s
 
 
@@ -148,6 +151,8 @@ def build(spec):
     R, t = EMBED[spec.get("embed", "none")]
     if spec.get("embed", "none") != "none":
         nodes = R @ nodes + t[:, None]
+    if spec.get("scale", 1) != 1:
+        nodes = float(spec["scale"]) * nodes
     g.nodes = nodes
     g.compute_geometry()
     if not np.all(g.cell_volumes > 0):
@@ -193,3 +198,48 @@ def h_min(g) -> float:
     cf = g.cell_faces.tocoo()
     dist = np.linalg.norm(g.face_centers[:, cf.row] - g.cell_centers[:, cf.col], axis=0)
     return float(dist.min())
+
+
+# ------------------------------------------------------------------ purity digests
+
+
+def _feed(h, x):
+    import scipy.sparse as sps
+
+    if x is None:
+        h.update(b"None")
+    elif sps.issparse(x):
+        h.update(x.format.encode() + repr(x.shape).encode())
+        for part in ("data", "indices", "indptr", "row", "col", "offsets"):
+            if hasattr(x, part):
+                h.update(np.ascontiguousarray(getattr(x, part)).tobytes())
+    else:
+        a = np.ascontiguousarray(np.asarray(x))
+        h.update(str(a.dtype).encode() + repr(a.shape).encode() + a.tobytes())
+
+
+def digest(*objs) -> str:
+    """Bitwise digest of grids (topology + geometry arrays + tags), porepy tensors
+    (``values``, ``mu``, ``lmbda``), boundary-condition objects (type flags, Robin
+    weight, basis), ndarrays and sparse matrices. Used as a purity oracle: a
+    discretization must not modify the grid / parameters it is given."""
+    import hashlib
+
+    h = hashlib.blake2b(digest_size=16)
+    for o in objs:
+        if hasattr(o, "cell_faces") and hasattr(o, "face_nodes"):  # grid
+            for att in ("nodes", "cell_faces", "face_nodes", "face_normals", "face_centers", "face_areas",
+                        "cell_centers", "cell_volumes"):
+                _feed(h, getattr(o, att, None))
+            for k in sorted(getattr(o, "tags", {})):
+                h.update(k.encode())
+                _feed(h, o.tags[k])
+        elif hasattr(o, "is_dir") and hasattr(o, "is_neu"):  # boundary condition
+            for att in ("is_dir", "is_neu", "is_rob", "is_internal", "robin_weight", "basis"):
+                _feed(h, getattr(o, att, None))
+        elif hasattr(o, "values") and not isinstance(o, np.ndarray):  # tensor
+            for att in ("values", "mu", "lmbda"):
+                _feed(h, getattr(o, att, None))
+        else:
+            _feed(h, o)
+    return h.hexdigest()
